@@ -159,9 +159,9 @@ h("c07_range_header_step", ["C07", "C08"], "quick", "offset,size any u64 with si
   "a request issued from state Init carries Range: bytes=offset-(offset+size-1), exactly one request",
   RR, [STUB_REQWEST, STUB_FORMAT])
 
-for nm in ("s123", "s221"):
+for nm in ("s123", "s221", "desc"):
     h("c17_http_read_chunks_entry_" + nm, ["C17", "C07", "C08"], "quick",
-      "3 chunks with the sizes in the name (concrete), offsets < 40 symbolic: ANY order, gaps, adjacency; retry settings symbolic",
+      "3 chunks with the sizes in the name (concrete), offsets < 40 symbolic: ANY order, gaps, adjacency; retry settings symbolic" if nm != "desc" else "3 chunks at CONCRETE descending offsets 30, 20, 5 (a reader that sorts its list runs code CBMC only gets through on concrete values); retry settings symbolic",
       "through the reader's entry (HttpReader::read_chunk_stream, what read_chunks boxes): the chunk list is taken as given -- the first request starts at the FIRST LISTED chunk and spans its maximal adjacent run -- and the reader's retry settings are handed on to the request",
       ["HttpReader::read_chunk_stream", "HttpReader::retries", "HttpReader::retry_delay"] + CR, [STUB_REQWEST, STUB_INNER])
 
@@ -226,8 +226,8 @@ for nm, u in (("s2_b1", "quick"), ("s3_b0", "quick"), ("s1_b0", "quick"), ("s2_b
     h("c08_io_read_step_" + nm, ["C08", "C17"], u, "chunk size / bytes already read as in the name (concrete), position concrete (first, or `_last`); offsets symbolic; the reader's answer symbolic: short read of 1..4 bytes, Pending, EOF, error",
       "state Read under invariant J: a short read appends exactly n bytes and keeps J, a complete chunk is emitted as exactly its bytes (index+1; the next chunk is located by its own seek, or the cursor is provably at its offset), Pending changes nothing, EOF => UnexpectedEof, errors forwarded",
       IOR, [MOCK_IO])
-for nm in ("s2_s3", "s3_s1"):
-    h("c17_io_read_chunks_entry_" + nm, ["C17", "C08"], "quick", "two chunks with the sizes in the name (concrete), offsets < 20 symbolic: ANY order; cursor anywhere",
+for nm in ("s2_s3", "s3_s1", "desc"):
+    h("c17_io_read_chunks_entry_" + nm, ["C17", "C08"], "quick", "two chunks with the sizes in the name (concrete), offsets < 20 symbolic: ANY order; cursor anywhere" if nm != "desc" else "two chunks at CONCRETE descending offsets 17, 3; cursor anywhere",
       "through the local reader's constructor (IoChunkReader::new, what IoReader::read_chunks boxes): the chunk list is taken as given -- the first poll seeks to the FIRST LISTED chunk's own offset and asks for exactly its size; the rest of the list is untouched",
       ["IoChunkReader::new"] + IOR, [MOCK_IO])
 h("c08_io_end_of_list", ["C08"], "quick", "index at the end of a 2-chunk list", "end of list => end of stream without touching the reader", IOR, [MOCK_IO])
